@@ -34,7 +34,11 @@ func (store *Store) GetAggregatedBalances(ctx context.Context, q GetAggregatedBa
 
 				switch address := value.(type) {
 				case string:
-					return filterAccountAddress(address, "account_address"), nil, nil
+					clause, err := filterAccountAddress(address, "account_address")
+					if err != nil {
+						return "", nil, err
+					}
+					return clause, nil, nil
 				default:
 					return "", nil, newErrInvalidQuery("unexpected type %T for column 'address'", address)
 				}
